@@ -111,6 +111,14 @@ class XPathToken(Token[ta.XPathTokenType]):
         elif symbol == '=>':
             if isinstance(self[1], self.registry.function_token):
                 return '%s => %s%s' % (self[0].source, self[1].symbol, self[2].source)
+            elif self[1].symbol in (':', 'Q{') and \
+                    isinstance(self[1][1], self.registry.function_token):
+                # only the name of the function: its argument tokens are filled by the calls
+                if self[1].symbol == ':':
+                    name = '%s:%s' % (self[1][0].source, self[1][1].symbol)
+                else:
+                    name = 'Q{%s}%s' % (self[1][0].value, self[1][1].symbol)
+                return '%s => %s%s' % (self[0].source, name, self[2].source)
             return '%s => %s%s' % (self[0].source, self[1].source, self[2].source)
         elif symbol == 'if':
             return 'if (%s) then %s else %s' % (self[0].source, self[1].source, self[2].source)
